@@ -55,7 +55,8 @@ structure PostLoop (n : Nat) (created : List Nat) (s : St) (L : Loop) : Prop whe
   coh : ∀ h, (L.st h).coh = true
   cr : ∀ h ∈ created, (L.st h).stage ≠ .timeStarted ∧ (L.st h).tag = n ∧ ((L.st h).stage = .idle → (L.st h).stored ≠ none)
   frame : ∀ h, h ∉ created → L.st h = s h
-  perm : L.pushed.Perm (created.map fun h => (h, n))
+  times : ∀ h ∈ created, (h, n) ∈ L.recvd
+  timesTag : ∀ p ∈ L.recvd, p.2 = n
 
 theorem nodup_map_pair {l : List Nat} (n : Nat) (h : l.Nodup) : (l.map fun h => (h, n)).Nodup := by
   induction l with
@@ -65,12 +66,44 @@ theorem nodup_map_pair {l : List Nat} (n : Nat) (h : l.Nodup) : (l.map fun h => 
     simp only [List.map_cons, List.nodup_cons, List.mem_map, Prod.mk.injEq, and_true, exists_eq_right]
     exact ⟨h.1, ih h.2⟩
 
+theorem lookup_of_mem {n h : Nat} : ∀ (l : List (Nat × Nat)), (∀ p ∈ l, p.2 = n) → (h, n) ∈ l → l.lookup h = some n := by
+  intro l
+  induction l with
+  | nil => intro _ hm; cases hm
+  | cons a l ih =>
+    intro hp hm
+    obtain ⟨a1, a2⟩ := a
+    have ha2 : a2 = n := hp (a1, a2) (by simp)
+    subst ha2
+    by_cases e : h = a1
+    · subst e; simp [List.lookup]
+    · have hm' : (h, a2) ∈ l := by
+        rcases List.mem_cons.1 hm with e' | e'
+        · exact absurd (congrArg Prod.fst e') e
+        · exact e'
+      have : (h == a1) = false := by simpa using e
+      rw [List.lookup_cons, this]
+      exact ih (fun p hp' => hp p (by simp [hp'])) hm'
+
+/-- after the receive loop every candidate time of the leg is in `received_event_times`: the pushes are exactly the
+handlers the activator returned, in that order -/
+theorem pushAll_ok {n : Nat} {recvd : List (Nat × Nat)} (htag : ∀ p ∈ recvd, p.2 = n) :
+    ∀ (created : List Nat), (∀ h ∈ created, (h, n) ∈ recvd) → pushAll recvd created = .ok (created.map fun h => (h, n)) := by
+  intro created
+  induction created with
+  | nil => intro _; rfl
+  | cons a l ih =>
+    intro hm
+    have h1 : recvd.reverse.lookup a = some n :=
+      lookup_of_mem recvd.reverse (fun p hp => htag p (List.mem_reverse.1 hp)) (List.mem_reverse.2 (hm a (by simp)))
+    simp [pushAll, h1, ih (fun h hh => hm h (by simp [hh]))]
+
 /-- **first half of a leg** under the boundary invariant, the activator protocol and a legitimate adversary -/
 theorem legRecv_ok (c : Cfg) (n : Nat) {running : Nat → Bool} {s : St} {created : List Nat} (waits : List (List Nat))
     (hB : BInv running s) (hn : created.Nodup) (hfresh : ∀ h ∈ created, running h = false)
     (hl : legLegit c n s created waits = true) :
     (legRecv c n s created waits = .error .starved ∧ waits.length < 2 * created.length) ∨
-    ∃ L rest, legRecv c n s created waits = .ok (L, rest) ∧ PostLoop n created s L ∧
+    ∃ L rest, legRecv c n s created waits = .ok (L, created.map (fun h => (h, n)), rest) ∧ PostLoop n created s L ∧
       rest.length ≤ waits.length ∧ waits.length - rest.length ≤ 2 * created.length := by
   obtain ⟨s1, hs1, hA, hF⟩ := sendAll_ok n created (s := s) hn (by
     intro h hh
@@ -95,31 +128,19 @@ theorem legRecv_ok (c : Cfg) (n : Nat) {running : Nat → Bool} {s : St} {create
     wsum_const (fun k hk => by simp [wt, (hA k hk).1])
   have hl' : legit c created { st := s1 } waits = true := by
     simpa [legLegit, hs1] using hl
-  have hleg : legRecv c n s created waits = recvLoop c created { st := s1 } waits := by
-    simp [legRecv, hs1]
   rcases recvLoop_ok c waits hI hl' with ⟨h1, h2⟩ | ⟨L, rest, h1, h2, h3, h4, h5⟩
-  · left; exact ⟨by rw [hleg]; exact h1, by omega⟩
+  · left; exact ⟨by simp [legRecv, hs1, h1], by omega⟩
   · right
-    refine ⟨L, rest, by rw [hleg]; exact h1, ?_, h4, by omega⟩
     have ht : tcount created L.st = 0 := by have := h2.cnt; omega
     have hnt : ∀ h ∈ created, (L.st h).stage ≠ .timeStarted := by
       intro h hh e
       have := wsum_eq_zero ht h hh
       simp [tsInd, e] at this
-    refine ⟨h2.coh, fun h hh => ⟨hnt h hh, h2.tag h hh, h2.stor h hh⟩, ?_, ?_⟩
-    · intro h hh; rw [h2.frame h hh]; exact hF h hh
-    · rw [List.perm_ext_iff_of_nodup h2.pushNodup (nodup_map_pair n hn)]
-      intro p
-      constructor
-      · intro hp
-        obtain ⟨e1, e2, -⟩ := h2.push1 p hp
-        rw [List.mem_map]
-        exact ⟨p.1, e2, by rw [← e1]⟩
-      · intro hp
-        rw [List.mem_map] at hp
-        obtain ⟨h, hh, e⟩ := hp
-        subst e
-        exact h2.push2 h hh (hnt h hh)
+    have htimes : ∀ h ∈ created, (h, n) ∈ L.recvd := fun h hh => h2.push2 h hh (hnt h hh)
+    have htag : ∀ p ∈ L.recvd, p.2 = n := fun p hp => (h2.push1 p hp).1
+    refine ⟨L, rest, by simp [legRecv, hs1, h1, pushAll_ok htag created htimes], ?_, h4, by omega⟩
+    refine ⟨h2.coh, fun h hh => ⟨hnt h hh, h2.tag h hh, h2.stor h hh⟩, ?_, htimes, htag⟩
+    intro h hh; rw [h2.frame h hh]; exact hF h hh
 
 /-! ### commit -/
 
